@@ -24,7 +24,9 @@ RULE = ('Hypothesis-generated histories over populations of 2-6 recorder handler
         'dispatches) or slot order, injected through an ordered set in desper.events. Oracle: every '
         'callback has a live receiver of the right class; after forget + gc.collect() the harness weakref is '
         'dead; every dispatch returns normally and reaches exactly the surviving registered listeners once '
-        '(a listener killed during that dispatch: 0 or 1). Non-trivial = a handler died during a dispatch while '
+        '(a listener killed during that dispatch: 0 or 1). '
+        'In ~12% of the cases every direct dispatch is repeated 64-150 times (hot events). '
+        'Non-trivial = a handler died during a dispatch while '
         'its callback for that event had not yet run (exact under injected order). Distinct = sha1 of canonical '
         'JSON.')
 ASSUMPTIONS = [
